@@ -66,6 +66,10 @@ def gen_history(R, nfiles, n):
             ops.append(('bdel', b'b !'))
         elif k < 0.97:
             ops.append(('bnum', b'b ~'))
+        elif k < 0.975:
+            ops.append(('ta', b'ta t%d' % R.randint(1, nfiles)))      # tag tN: line 2 of fN (jumps between buffers, remembering where it came from)
+        elif k < 0.985:
+            ops.append(('po', b'po'))
         elif k < 0.99:
             ops.append(('disk', None))      # filled in at run time: change an open, non-current file on disk
         else:
@@ -79,6 +83,7 @@ def run_history(args):
     nfiles = R.choice([2, 3, 5, 8, 16])
     files = {('f%d' % i): b''.join(b'f%d line %d\n' % (i, j) for j in range(1, R.randint(2, 5) + 1)) for i in range(1, nfiles + 1)}
     files['alt'] = b'REPLACED ON DISK\n'
+    files['tags'] = b''.join(b't%d\tf%d\t2\n' % (i, i) for i in range(1, nfiles + 1))
     ops = gen_history(R, nfiles, R.randint(10, 50))
     if nfiles == 16 and R.random() < 0.8:
         # fill the whole table first (edits and line moves in some buffers), then wander: returning to the
@@ -136,6 +141,7 @@ def run_history(args):
         return [], 0, 0, 'inconclusive'
     lst, line, text = o
     bufs = [Buf('f1', 1, disk['f1'])]      # MRU order
+    tagstack = []
     nextid = 2
     bad = []
     nsw = 0
@@ -147,6 +153,30 @@ def run_history(args):
     for k, (kind, cmd) in enumerate(concrete, 1):
         cur = bufs[0]
         switched = False
+        jumpline = None
+        if kind in ('ta', 'po'):
+            if kind == 'ta':
+                if len(tagstack) >= 30:
+                    return bad, nsw, nchk, 'cut: tag stack full'
+                tagstack.append((cur.path, cur.line))
+                target, jumpline = cmd.split()[-1].decode().replace('t', 'f'), 2
+            elif tagstack:
+                target, jumpline = tagstack.pop()
+            else:
+                target = cur.path       # "not found": nothing moves
+            if target != cur.path:
+                if cur.flag:
+                    return bad, nsw, nchk, 'cut: tag jump out of a modified buffer'
+                ex = [b for b in bufs if b.path == target]
+                if ex:
+                    bufs.remove(ex[0])
+                    bufs.insert(0, ex[0])
+                elif len(bufs) >= 16:
+                    return bad, nsw, nchk, 'cut: tag jump with a full table'
+                else:
+                    bufs.insert(0, Buf(target, nextid, disk[target]))
+                    nextid += 1
+                switched = True
         if kind in ('edit',):
             expected_change = True
         if kind == 'undo':
@@ -239,6 +269,12 @@ def run_history(args):
                 key = 'reread-open-path' if text == disk.get(cur.path) and cur.text != disk.get(cur.path) else 'text-changed-across-switch'
                 fail(key, 'buffer %s shows %r, it was left as %r' % (cur.path, common.show(text or b'', 80), common.show(cur.text, 80)), k)
                 return bad, nsw, nchk, None
+            if jumpline is not None:
+                # a tag jump / pop sets the line itself; the buffer reached is otherwise as it was left
+                if jumpline <= (text or b'').count(b'\n') and line != jumpline:
+                    fail('tag-line', 'buffer %s: %s lands on line %s, expected %s' % (cur.path, cmd.decode(), line, jumpline), k)
+                    return bad, nsw, nchk, None
+                cur.line = line
             if line != cur.line:
                 fail('line-changed-across-switch', 'buffer %s: current line %s, it was left at %s' % (cur.path, line, cur.line), k)
                 return bad, nsw, nchk, None
@@ -252,6 +288,9 @@ def run_history(args):
                 if text != cur.snaps[cur.pos]:
                     fail('undo-history-across-switch', 'buffer %s after %s: text %r, its own history says %r' % (cur.path, kind, common.show(text or b'', 80), common.show(cur.snaps[cur.pos], 80)), k)
                     return bad, nsw, nchk, None
+            elif jumpline is not None and text == cur.text and jumpline <= (text or b'').count(b'\n') and line != jumpline:
+                fail('tag-line', 'buffer %s: %s lands on line %s, expected %s' % (cur.path, cmd.decode(), line, jumpline), k)
+                return bad, nsw, nchk, None
             elif text != cur.text:
                 fail('text-changed-by-non-edit', 'buffer %s: %r changed the text' % (cur.path, cmd), k)
                 return bad, nsw, nchk, None
@@ -439,6 +478,40 @@ def unnamed_alt_scenario(args):
     return ('ok', None, wit)
 
 
+def unnamed_named_scenario(args):
+    """a buffer that gets its name from its first :w (a name that needs expanding: escaped blanks and specials): from then on it is
+    that file's buffer -- saved, reachable by that name with its line kept and without a second read, and :w goes to the same file"""
+    import os
+    vi, idx = args
+    R = rng('c20', 'unnamed-named', idx)
+    raw, real = R.choice([(b'my\\ file', 'my file'), (b'a\\|b', 'a|b'), (b'\\#x', '#x'), (b'plain', 'plain'), (b'x\\%y', 'x%y'), (b'dir/in\\ dir', 'dir/in dir')])
+    text = b''.join(b'u%d line %d\n' % (idx, j) for j in range(1, R.randint(3, 6)))
+    ln = R.randint(2, text.count(b'\n'))
+    script = b'a\n' + text + b'.\n%d\nw %s\nec ' % (ln, raw) + S(0) + b'\ne f1\nec ' + S(1) + b'\n1p\nec ' + S(2) + b'\n'
+    back = R.choice([b'e ' + raw, b'e #', b'e! ' + raw])
+    script += back + b'\nec ' + S(3) + b'\n.=\nec ' + S(4) + b'\n1,$p\nec ' + S(5) + b'\n1s/^/Z/\nw\nec ' + S(6) + b'\nq\nec ' + S(7) + b'\n'
+    d = common.case_dir('e')
+    os.makedirs(os.path.join(d, 'dir'))
+    r, d = common.run_ex(vi, script, files={'f1': b'f1 one\n'}, timeout=30, args=[], cwd=d)
+    names = sorted(os.path.relpath(os.path.join(dp, f), d) for dp, _, fs in os.walk(d) for f in fs)
+    final = common.readf(d, real)
+    common.rmcase(d)
+    wit = {'index': idx, 'script': script}
+    if r.timed_out or common.san_report(r) or S(6) not in r.out:
+        return ('inconclusive', None, wit)
+    seg = lambda a, b: r.out.split(S(a), 1)[1].split(S(b), 1)[0]
+    if b'f1 one' not in seg(1, 2):
+        return ('unnamed:named-but-not-saved', 'unnamed buffer written as %r: the following :e f1 was not carried out (%r)' % (raw, common.show(seg(0, 1), 80)), wit)
+    m = re.search(rb'(\d+)', seg(3, 4))
+    if seg(4, 5) != text or not m or int(m.group(1)) != ln:
+        return ('unnamed:named-buffer-not-found', 'unnamed buffer written as %r, left on line %d: %s shows line %s and text %r' % (raw, ln, back, m.group(1) if m else None, common.show(seg(4, 5), 80)), wit)
+    if names != sorted(['f1', real]) or final != b'Z' + text:
+        return ('unnamed:named-writes-elsewhere', 'unnamed buffer written as %r: files now %s, %r holds %r' % (raw, names, real, common.show(final or b'', 60)), wit)
+    if S(7) in r.out:
+        return ('unnamed:named-still-modified', 'unnamed buffer written as %r and again with :w: :q is refused' % raw, wit)
+    return ('ok', None, wit)
+
+
 def run(tier, V):
     vi = build('asan')
     n = 1200 if tier == 'quick' else 15000
@@ -456,7 +529,7 @@ def run(tier, V):
             V.violation(key, what, wit)
     nsc = 150 if tier == 'quick' else 2500
     scok = 0
-    for fn in (aw_scenario, split_scenario, unnamed_alt_scenario, table_full_scenario):
+    for fn in (aw_scenario, split_scenario, unnamed_alt_scenario, table_full_scenario, unnamed_named_scenario):
         for key, what, wit in pmap(fn, [(vi, base + i) for i in range(nsc)]):
             if key == 'inconclusive':
                 V.inconclusive += 1
@@ -464,11 +537,11 @@ def run(tier, V):
                 scok += 1
             elif key != 'ok-trivial':
                 V.violation(key, what, wit)
-    nchk += 4 * nsc
+    nchk += 5 * nsc
     nsw += scok
     cov = {'autowrite_and_split_window_scenarios': 2 * nsc, 'evaluations': nchk, 'distinct_nontrivial': nsw, 'histories': n, 'observations': nchk, 'switches_checked': nsw, 'cuts': cuts,
-           'rule': ('%d histories of 10-50 ops over 2,3,5,8 or 16 files: open (:e), switch (:e path, :e!, :e #, :b N, :b +/-, :b %%/#/^), edit, undo, redo, write, delete-buffer (:b !), renumber (:b ~), '
-                    'change of a file on disk behind the editor, final :q; + autowrite scenarios (several modified buffers, :se aw, :q/:x/:wq: every file gets the text of its own buffer) + vi scenarios with two windows on two buffers (each keeps its own cursor line).  after EVERY op: buffer list (ids, MRU order, flags), current line and a dump of the current buffer are observed and compared with the '
+           'rule': ('%d histories of 10-50 ops over 2,3,5,8 or 16 files: open (:e), switch (:e path, :e!, :e #, :b N, :b +/-, :b %%/#/^), edit, undo, redo, write, delete-buffer (:b !), renumber (:b ~), tag jumps and pops (:ta, :po), '
+                    'change of a file on disk behind the editor, final :q; + autowrite scenarios (several modified buffers, :se aw, :q/:x/:wq: every file gets the text of its own buffer) + vi scenarios with two windows on two buffers (each keeps its own cursor line) + buffers named by their first :w with names that need expanding.  after EVERY op: buffer list (ids, MRU order, flags), current line and a dump of the current buffer are observed and compared with the '
                     'model.  non-trivial = an observation right after a successful switch (text, line and flags of the reached buffer compared with how it was left).' % n),
            'samples': [{'ops': [c.decode() for _, c in gen_history(rng('c20', base), 3, 12) if c]}]}
     assumptions = ['edits used are prefix insertions / appended lines with unique letters, so that equal texts mean equal history positions',
